@@ -1024,6 +1024,8 @@ def install():
     lomond.session.WebsocketSession._selector_cls = \
         lomond.selectors.PollSelector
     lomond.websocket.os = _OsNS
+    if hasattr(lomond.websocket, 'threading'):
+        lomond.websocket.threading = _ThreadingNS
     lomond.frame.make_masking_key = _masking_key
     lomond.persist.random = _random
     _installed = True
